@@ -6,6 +6,7 @@ import re
 import subprocess
 import sys
 
+from .impl import schema_to_wire
 from .common import Report, run_driver_parallel, seed, log, VERIF, REPO, PY
 from .impl import run_cases
 
@@ -90,6 +91,7 @@ def w_generate(case):
         importlib.import_module("fcp_vtest").CONFIG.update(case["vtest"])
     # 1. the verifier's own verdict, obtained separately
     fcp = _parse(case["text"])
+    out["schema"] = fcp.to_dict()
     v = make_general_verifier()
     importlib.import_module("fcp_" + name).Generator().register_checks(v)
     try:
@@ -189,6 +191,7 @@ POISON = {
     "tooBigAlias": "struct Big2 {\n    a @ 0: u32,\n    b @ 1: [u8, 4],\n    c @ 2: u8,\n}\nimpl can for Big2 as BigFrame {\n    id: 16,\n    device: \"ecu\",\n}",
     "variableAlias": "impl can for C as CFrame {\n    id: 17,\n}",
 }
+GENERAL_POISON = ("dupType", "dupField", "dupEnumName", "dupEnumValue", "dupImpl", "missingService")
 PRE = [
     None,
     {},
@@ -200,7 +203,26 @@ PRE = [
 ]
 
 
+# schemas in which whole categories are empty (no struct at all, nothing but a device, ...): a rule must be applied even
+# when the declarations it could be thought to depend on are absent
+SPARSE = [
+    ("enum E {\n    P = 0,\n}\nenum E {\n    Q = 1,\n}", "dupType"),
+    ("enum E {\n    P = 0,\n}\nenum F {\n    Q = 1,\n}\nenum E {\n    R = 2,\n}", "dupType"),
+    ("enum E {\n    P = 0,\n    P = 1,\n}", "dupEnumName"),
+    ("enum E {\n    P = 0,\n    Q = 0,\n}", "dupEnumValue"),
+    ("enum E {\n    P = 0,\n    Q = 1,\n}", None),
+    ("device d2 {\n    services: [Nope],\n}", "missingService"),
+    ("enum E {\n    P = 0,\n}\ndevice d2 {\n    services: [Nope],\n}", "missingService"),
+    ("impl can for Zzz {\n    id: 13,\n}", "implNoStruct"),
+    ("enum E {\n    P = 0,\n}\nimpl can for E {\n    id: 13,\n}", "implNoStruct"),
+    ("struct A {\n    x @ 0: u8,\n}", None),
+]
+
+
 def gen_case(rng):
+    if rng.random() < 0.15:
+        text, poison = rng.choice(SPARSE)
+        return 'version: "3"\n\n' + text + "\n", poison
     decls = [g for g in GOOD if rng.random() < 0.85 or g.startswith("enum E") or g.startswith("struct A")]
     # keep declare-before-use
     if not any(d.startswith("struct B") for d in decls):
@@ -265,6 +287,7 @@ def run_c10(prop, tier):
     ires = run_cases("harness.genmgr", "w_generate", cases, timeout_s=120)
     lcases = []
     idx = []
+    spec_cases, spec_idx = [], []
     for k, (c, r) in enumerate(zip(cases, ires)):
         rep.count(json.dumps([c["text"], c["generator"], c["pre"]], sort_keys=True))
         if "ok" not in r:
@@ -280,6 +303,21 @@ def run_c10(prop, tier):
         if "exc" in o["verdict"]:
             rep.violation(dict(base, kind="verify-raised", what="verifier raised"), no_input=True)
             continue
+        # ---- ground truth that does not pass through the verifier's dispatch: the rule the schema violates by construction
+        # (general rules reject under every generator; plug-in rules under their plug-in)
+        must_reject = c["poison"] in GENERAL_POISON or \
+            (c["poison"] in ("implNoStruct",) and c["generator"] in ("dbc", "can_c")) or \
+            (c["poison"] == "dupCanId" and c["generator"] == "dbc") or \
+            (c["poison"] in ("tooBig", "variable", "tooBigAlias", "variableAlias") and c["generator"] == "can_c")
+        if must_reject and (o["verdict"].get("ok") or o["result"].get("ok") or o["before"] != o["after"]):
+            rep.cov["disagreements_checked"] += 1
+            rep.violation(dict(base, kind="gate-by-construction", before=sorted(o["before"]), after=sorted(o["after"]),
+                               what="the schema violates rule '%s' by construction, but verification / the generate command "
+                                    "did not reject it, or the output directory changed" % c["poison"]))
+            continue
+        spec_cases.append({"op": "verify", "schema": schema_to_wire(o["schema"]),
+                           "set": {"dbc": "dbc", "can_c": "can_c"}.get(c["generator"], "general")})
+        spec_idx.append(k)
         # ---- the property itself
         if not o["verdict"]["ok"]:
             if o["result"].get("ok") is not False:
@@ -329,6 +367,20 @@ def run_c10(prop, tier):
         lcases.append({"op": "gate", "pre": pre, "files": files, "verdict_ok": bool(o["verdict"]["ok"]),
                        "clears_ch": c["generator"] == "can_c"})
         idx.append(k)
+    # the specification's verdict (Lean model of the verifier, theorems C09_*): a schema it rejects must not generate
+    for k, m in zip(spec_idx, run_driver_parallel(spec_cases)):
+        o = ires[k]["ok"]
+        c = cases[k]
+        if c["generator"] == "vtest" or "driver_err" in m:
+            continue
+        rep.hist("spec_verdict", "accept" if m.get("ok") else "reject")
+        if m.get("ok") is False and (o["result"].get("ok") or o["before"] != o["after"]):
+            rep.cov["disagreements_checked"] += 1
+            rep.violation({"kind": "gate-spec", "schema": c["text"], "generator": c["generator"], "pre_existing": c["pre"],
+                           "spec_rule": m.get("rule"), "result": o["result"], "verdict": o["verdict"],
+                           "written": sorted(set(o["after"]) - set(o["before"])),
+                           "what": "the well-formedness specification rejects the schema (rule %s) but the generate command "
+                                   "succeeded or touched the output directory" % m.get("rule")})
     mres = run_driver_parallel(lcases)
     for k, m in zip(idx, mres):
         o = ires[k]["ok"]
@@ -428,6 +480,7 @@ def rich_schema(rng):
         enums.append(f"En{k}")
         ebits[f"En{k}"] = max(1, mx.bit_length())
     structs = []
+    nfields = {}
     for k in range(rng.randint(3, 7)):
         fields, bits = [], 0
         for j in range(rng.randint(1, 4)):
@@ -444,8 +497,22 @@ def rich_schema(rng):
             fields = ["    f0 @ 0: u8,"]
         out.append(f"struct M{k} {{\n" + "\n".join(fields) + "\n}")
         structs.append(f"M{k}")
+        nfields[f"M{k}"] = len(fields)
     for k, sname in enumerate(structs):
         lines = [f"    id: {100 + k},"]
+        nf = nfields[sname]
+        if nf >= 2 and rng.random() < 0.6:
+            # signal blocks: several multiplexed signals, with DIFFERENT switches where the struct has enough fields, and
+            # byte-order options - everything a generator could collect in a set or a dict keyed by hash
+            fs = list(range(nf))
+            rng.shuffle(fs)
+            switches = fs[:max(1, nf // 2)]
+            for j in fs[len(switches):] or fs[:1]:
+                sw = rng.choice(switches)
+                opts = [f"        mux_count: {rng.choice([2, 4, 16])},", f'        mux_signal: "f{sw}",']
+                if rng.random() < 0.3:
+                    opts.append('        endianess: "big",')
+                lines.append(f"    signal f{j} {{\n" + "\n".join(opts) + "\n    },")
         if rng.random() < 0.8:
             lines.append(f'    bus: "{rng.choice(buses)}",')
         if rng.random() < 0.9:
